@@ -442,9 +442,13 @@ def g_xml_samples(r):
     nss = [None, "urn:a", "urn:b", "http://x.y/z"]
     names = [g_ncname(r) for _ in range(r.randint(3, 8))]
 
+    # prefixes declared on the root: the same local name then occurs in several namespaces of ONE document
+    prefixed = r.random() < 0.5
+
     def elem(depth):
         n = r.choice(names)
-        ns = r.choice(nss) if r.random() < 0.3 else None
+        ns = r.choice(nss) if r.random() < 0.3 and not prefixed else None
+        pfx = r.choice(["", "", "a:", "b:"]) if prefixed else ""
         attrs = ""
         for a in dict.fromkeys(r.choice(names) if r.random() < 0.5 else g_ncname(r) for _ in range(r.choice([0, 0, 1, 2]))):
             attrs += f" {a}={quoteattr(g_text_value(r))}"
@@ -457,12 +461,13 @@ def g_xml_samples(r):
             body = "mixed " + elem(depth + 1) + " tail"
         else:
             body = "".join(elem(depth + 1) for _ in range(r.randint(1, 4)))
-        return f"<{n}{attrs}>{body}</{n}>"
+        return f"<{pfx}{n}{attrs}>{body}</{pfx}{n}>"
 
     root = r.choice(names)
+    decl = ' xmlns:a="urn:a" xmlns:b="urn:b"' if prefixed else ""
     out = {}
     for i in range(r.choice([1, 1, 2, 3])):
-        out[r.choice(["s", "class", "1", "A-b", "await"]) + str(i) + ".xml"] = f"<{root}>{''.join(elem(1) for _ in range(r.randint(1, 4)))}</{root}>"
+        out[r.choice(["s", "class", "1", "A-b", "await"]) + str(i) + ".xml"] = f"<{root}{decl}>{''.join(elem(1) for _ in range(r.randint(1, 4)))}</{root}>"
     return out, ["xml"]
 
 
